@@ -370,6 +370,9 @@ class ProgGen:
                                                  t.shuffle(["Low", "Mid", "High", "Off"], "evals")[:2 + t.choose(2, "nvals")]]))
         for feat in self.f.get("force", ()):
             getattr(self, "force_" + feat)()
+        if self.f.get("shuffle_functions", True):
+            # overloads of a free function need not be declared next to each other
+            p.functions[:] = t.shuffle(p.functions, "function-order")
         _dedupe_signatures(p)
         _assign_entities(p)
         return p
